@@ -101,6 +101,10 @@ def setup(ctx):
     install(T.EnvSpec, "compatibility", post_compat, mon="compat-spy")
 
 
+class _StrName(str):
+    """A plain str subclass."""
+
+
 def _names(ctx, n):
     import dep_logic.tags.tags as T
     from dep_logic.tags import EnvSpec
@@ -144,7 +148,17 @@ def _names(ctx, n):
                     ctx.c18["via"] = False
                     ctx.c18["expect_lists"] = None
             else:
-                res = T.parse_wheel_tags(fn)
+                arg = fn
+                k = rnd.random()
+                if k < 0.1:
+                    arg = _StrName(fn)           # a str subclass instance
+                    ctx.shape("call-form:str-subclass")
+                elif k < 0.15:
+                    import enum
+
+                    arg = enum.Enum("WheelFile", {"X": fn}, type=str).X   # a (str, Enum) member whose value is the name
+                    ctx.shape("call-form:str-enum-member")
+                res = T.parse_wheel_tags(arg)
                 if rnd.random() < 0.3:
                     # a consumer that edits the lists it was handed (they are its own): later parses must not see it
                     for lst in res:
@@ -172,7 +186,7 @@ ARCH = ["x86_64", "aarch64", "arm64", "amd64", "x86", "i686", "armv7l", "ppc64le
 XY = [(2, 17), (10, 9), (14, 0), (1, 2), (11, 0), (2, 5), (12, 34), (100, 200), (0, 0), (2, 40), (10, 16), (26, 1)]
 
 
-def _platforms(ctx):
+def _platforms(ctx, only=None):
     from dep_logic.tags import Platform
 
     def one(text, expect_major_minor=None):
@@ -219,8 +233,50 @@ def _platforms(ctx):
                 pass
             bump("platform-roundtrip-after-use")
             roundtrip("after compatible_tags / scoring")
+        if ctx.cases % 3 == 0 or getattr(ctx, "force_forms", False):
+            call_forms(text, p)
         return p
 
+    def call_forms(text, p):
+        """The same name through the other legal ways of passing it: by keyword, as an instance of a str subclass, as
+        a (str, Enum) member (the usual type of a CLI choice) - to Platform.parse and to EnvSpec.from_spec."""
+        import enum
+        import inspect
+
+        from dep_logic.tags import EnvSpec
+
+        class _Str(str):
+            pass
+
+        try:
+            pname = list(inspect.signature(Platform.parse).parameters)[0]
+        except Exception:  # noqa: BLE001
+            pname = "platform"
+        forms = [("keyword", lambda: Platform.parse(**{pname: text})), ("str-subclass", lambda: Platform.parse(_Str(text))),
+                 ("from_spec", lambda: EnvSpec.from_spec(">=3.8", text).platform),
+                 ("from_spec/str-subclass", lambda: EnvSpec.from_spec(">=3.8", _Str(text)).platform)]
+        try:
+            member = enum.Enum("PlatformChoice", {"X": text}, type=str).X
+            forms += [("str-enum-member", lambda: Platform.parse(member)),
+                      ("from_spec/str-enum-member", lambda: EnvSpec.from_spec(">=3.8", member).platform)]
+        except Exception:  # noqa: BLE001
+            pass
+        for how, call in forms:
+            bump("platform-call-form")
+            try:
+                q = call()
+            except Exception as e:  # noqa: BLE001
+                violation(PROP, "Platform.parse", f"a documented platform name does not parse when passed as {how} ({type(e).__name__})",
+                          {"text": text, "error": str(e)[:120], "group": "call-form/" + how})
+                continue
+            if q != p or str(q) != str(p):
+                violation(PROP, "Platform.parse", f"the name parses to a different platform when passed as {how}",
+                          {"text": text, "positional": str(p), how: str(q), "group": "call-form/" + how})
+
+    if only is not None:   # replay of one platform name with every call form
+        ctx.force_forms = True
+        one(only)
+        return
     choices = Platform.choices()
     ctx.extra["platform_choices"] = len(choices)
     for name in choices:
@@ -295,9 +351,4 @@ def replay(ctx, case):
         except Exception:  # noqa: BLE001
             pass
     else:
-        try:
-            p = Platform.parse(case["text"])
-            if Platform.parse(str(p)) != p:
-                violation(PROP, "Platform.__str__", "Platform.parse(str(p)) != p", {"text": case["text"]})
-        except Exception as e:  # noqa: BLE001
-            violation(PROP, "Platform.parse", f"raised {type(e).__name__}", {"text": case["text"]})
+        _platforms(ctx, only=case["text"])
